@@ -249,6 +249,7 @@ async def""", ["C14", "C02"]),
     ("compose-missing-input-test-removed", D, """                        if pred in dag_inputs_ids:
                             _raise_missing_input(pred)
 """, "", ["C19"]),
+    ("alias-id-test-or", D, "if isinstance(alias, Identifier) and alias in self.exec_nodes:", "if isinstance(alias, Identifier) or alias in self.exec_nodes:", ["C12"]),
     ("compose-walk-recursive-again", D, """                        pending.append(pred)""", """                        _add_missing_deps(pred, xn_ids)""", ["C19"]),
     # ---- setup / selection / debug (C11 / C12 / C13)
     ("writeback-drop-setup-guard", D, """            if xn.setup and not xn.executed(self.results):
